@@ -304,6 +304,31 @@ def f_indexed(p):
     return n
 
 
+def f_exists_idx(p):
+    # PARALLEL IF EXISTS ... ON INDEX ... WHERE <condition on two attributes of the probed tuple>, over a large index range
+    r = p.r
+    if "e3" not in p.facts:
+        p.decl("e3", [("k", "number"), ("y", "number"), ("z", "number")], output=False)
+        rows = set()
+        for _ in range(r.choice([60, 150, 400])):
+            k = r.randrange(3)
+            y = r.randrange(40)
+            z = r.randrange(40)
+            if k == 1 and y == z:
+                z = y + 1  # key 1 has no witness of y = z: a run that reports one mixed two threads' tuples
+            rows.add((k, y, z))
+        p.facts["e3"] = [("%d" % a, "%d" % b, "%d" % c) for a, b, c in sorted(rows)]
+    a = p.fresh("hit")
+    p.decl(a, [("k", "number")])
+    p.rule("%s(1) :- e3(1,y,z), y = z." % a)
+    p.rule("%s(2) :- e3(2,y,z), y + 3 < z." % a)
+    p.rule("%s(10) :- e3(0,y,z), y > z, z > 35." % a)
+    b = p.fresh("hitn")
+    p.decl(b, [("x", "number")], p.repr_for(1))
+    p.rule("%s(x) :- n1(x), e3(2,y,z), y = z + 1." % b)
+    return a
+
+
 def f_exists(p):
     # atoms whose variables are unused become (PARALLEL) IF EXISTS / IF EXISTS ... ON INDEX
     a = p.fresh("any")
@@ -336,7 +361,7 @@ def f_index_brie(p):
     return a
 
 
-FRAGMENTS = [f_exists, f_index_brie, f_outer_aggr2, f_filter, f_join, f_join3, f_tc, f_mutual, f_negation, f_aggr, f_outer_aggr, f_strings, f_records, f_adt, f_eqrel, f_multi,
+FRAGMENTS = [f_exists, f_exists_idx, f_index_brie, f_outer_aggr2, f_filter, f_join, f_join3, f_tc, f_mutual, f_negation, f_aggr, f_outer_aggr, f_strings, f_records, f_adt, f_eqrel, f_multi,
              f_arith, f_indexed]
 
 
